@@ -22,7 +22,7 @@ CLAIMED = {
     ),
     "C06": dict(
         technique="static analysis: path table of generalized_rush_larsen against reference terms; condition-chain analysis of fraction_numerator_is_nonzero; per-scheme evaluation of add_schemes' keyword arguments; since the rebuild the function-level clauses are decided on abstract values (sa/av.py: symbolic summaries of what a function computes, compared with the vetted reference value; three-valued: ok / violation / undecided)",
-        text="Decides the formula structure: Euler fallback iff the own-state derivative is identically zero, guarded exponential-integrator term iff the zero-division check is needed, plain term otherwise, linearisation = diff of the state's own expression w.r.t. its own state and printed before use; the guard is elided only for a**-1 and products of accepted factors; delta reaches the guard for every scheme that takes it. Convergence / exactness / finiteness are numerical consequences and are not decided.",
+        text="Decides the formula structure: Euler fallback iff the own-state derivative is identically zero, guarded exponential-integrator term iff the zero-division check is needed, plain term otherwise, linearisation = diff of the state's own expression w.r.t. its own state and printed before use; the guard is elided only for a**-1 and products of accepted factors; delta reaches the guard for every scheme that takes it. Convergence / exactness / finiteness are numerical consequences and are not decided. Also: sign() - which only differentiation of abs() puts into a linearisation - is printed by every backend as a function that is 0 at 0.",
         note="sympy.diff and the printers are trusted; predicates are opaque atoms.",
         ref="3/C06",
     ),
@@ -34,31 +34,31 @@ CLAIMED = {
     ),
     "C09": dict(
         technique="static analysis: order-provenance dataflow (annotation-typed set/dict/sequence values with HASH taints, interprocedural summaries, sinks = emitted text / slot numbers / topological sorter / templates / ordered accessors) + who-may-write check for process-global state; since the rebuild the function-level clauses are decided on abstract values (sa/av.py: symbolic summaries of what a function computes, compared with the vetted reference value; three-valued: ok / violation / undecided)",
-        text="Decides, for all models and hash seeds at once, that no order derived from iterating a set/frozenset (or from a sort with a non-injective key) reaches an order-sensitive sink on the load->generate->save path (all ~30 set-iteration sites are enumerated and discharged), and that no function of the package writes module-level objects (history independence).",
+        text="Decides, for all models and hash seeds at once, that no order derived from iterating a set/frozenset (or from a sort with a non-injective key) reaches an order-sensitive sink on the load->generate->save path (all ~30 set-iteration sites are enumerated and discharged), and that no function of the package writes module-level objects (history independence). Also: no public function modifies a caller-supplied argument in place (directly, through an alias, or by handing it to a package function that does), so a list or dict of options passed twice gives the same result twice.",
         note="Receiver types come from the package's annotations (no type checker available); untyped operands are counted and assumed to be external ordered sequences. sympy/graphlib/lark are assumed deterministic given ordered inputs. myokit.py is out of scope.",
         ref="3/C09",
     ),
     "C10": dict(
         technique="static analysis: the same order-provenance dataflow with TEXT taints (ODE.components keeps first-appearance order) + container-kind checks in the transformer; since the rebuild the function-level clauses are decided on abstract values (sa/av.py: symbolic summaries of what a function computes, compared with the vetted reference value; three-valued: ok / violation / undecided)",
-        text="Decides that the textual order of blocks/entries/lines is discarded (atoms gathered in frozensets), that the one sequence that keeps text order (ODE.components) reaches no emitted code, slot number, sorter input or ordered accessor, and that ODE.__eq__ does not compare it element-wise.",
+        text="Decides that the textual order of blocks/entries/lines is discarded (atoms gathered in frozensets), that the one sequence that keeps text order (ODE.components) reaches no emitted code, slot number, sorter input or ordered accessor, and that ODE.__eq__ does not compare it element-wise. Also: no set-traversal order (which depends on insertion order, hence on the text) reaches those sinks, and a name can be defined only once (the redefinition check compares by identity and precedes the merge into sets), so no survivor of two equal-comparing definitions is chosen by text order.",
         note="lark delivers children in text order; comments' own order is exempt (the property does not permute them).",
         ref="3/C10",
     ),
     "C12": dict(
         technique="static analysis: provenance of every removal predicate (must be `name in ODE.dependents()`), loop/filter shape of dependents(), call-site arguments of the unpack helpers, purity of generator methods, STATE slot family; since the rebuild the function-level clauses are decided on abstract values (sa/av.py: symbolic summaries of what a function computes, compared with the vetted reference value; three-valued: ok / violation / undecided)",
-        text="Decides that liveness is computed from the complete, unfiltered dependency relation, that only rhs filters the state unpacking while schemes/monitors unpack every state they read, that generator methods keep no state between calls, and that the state slot layout is independent of remove_unused (post-sort filter over intermediates only).",
+        text="Decides that liveness is computed from the complete, unfiltered dependency relation, that only rhs filters the state unpacking while schemes/monitors unpack every state they read, that generator methods keep no state between calls, and that the state slot layout is independent of remove_unused (post-sort filter over intermediates only). The PARAM slot family is checked the same way (a producer that filters by use before numbering renumbers the used parameters).",
         note="Numerical equality of the two generated modules is not decided.",
         ref="3/C12",
     ),
     "C18": dict(
         technique="static analysis: parameter def-use / keyword-forwarding flow over the typer commands, mains and get_code; evaluation-order check of load -> generate -> write; config-key table cross-checked with docs/config.md; since the rebuild the function-level clauses are decided on abstract values (sa/av.py: symbolic summaries of what a function computes, compared with the vetted reference value; three-valued: ok / violation / undecided)",
-        text="Decides that every option a conversion command accepts reaches the dispatched main (and from there get_code / the generator / add_schemes / the formatter / the output path), per scheme which keyword arguments are passed, that the output file is touched only after generation returned and holds get_code's text unmodified with no handler around it, that an explicit --config wins, and that every documented configuration key is read with the CLI value as default into the forwarded variable.",
+        text="Decides that every option a conversion command accepts reaches the dispatched main (and from there get_code / the generator / add_schemes / the formatter / the output path), per scheme which keyword arguments are passed, that the output file is touched only after generation returned and holds get_code's text unmodified with no handler around it, that an explicit --config wins, and that every documented configuration key is read with the CLI value as default into the forwarded variable. Also: the file written is the given output name itself (sibling mains agree), validate_scheme keeps one scheme per requested entry in the order given, and the backend selects its generator with unknown backends rejected.",
         note="Exit codes as seen from a shell and typer's own validation are not decided.",
         ref="3/C18",
     ),
     "C20": dict(
         technique="static analysis: STATE slot family for the matrix builders; bound/def-use analysis of the substitution loop; wiring of jacobi_matrix; since the rebuild the function-level clauses are decided on abstract values (sa/av.py: symbolic summaries of what a function computes, compared with the vetted reference value; three-valued: ok / violation / undecided)",
-        text="Decides that states_matrix/rhs_matrix use the state order of the generated code, that the intermediate-expansion loop substitutes the complete, unmodified map until none are left with a bound that is absent or derived from the model's size (also at every call site), raising only if something is left, and that jacobi_matrix = rhs_matrix(ode).jacobian(states_matrix(ode)).",
+        text="Decides that states_matrix/rhs_matrix use the state order of the generated code, that the intermediate-expansion loop substitutes the complete, unmodified map until none are left with a bound that is absent or derived from the model's size (also at every call site), raising only if something is left, and that jacobi_matrix = rhs_matrix(ode).jacobian(states_matrix(ode)). Also: no function of sympytools keeps results in module-level state.",
         note="Equality of the matrices with the model's derivatives is not decided (sympy's xreplace/jacobian trusted).",
         ref="3/C20",
     ),
@@ -91,7 +91,7 @@ CLAIMED.update({
     ),
     "C11": dict(
         technique="static analysis: writer-vocabulary vs grammar-vocabulary (printer resolution table x grammar model), operator table, coverage of the writer helpers; since the rebuild the function-level clauses are decided on abstract values (sa/av.py: symbolic summaries of what a function computes, compared with the vetted reference value; three-valued: ok / violation / undecided)",
-        text="Decides that everything the writer can emit for a producible class is accepted by ode.lark with the right head per operator and all operands, that all sections / atoms / annotations are written unmodified, header-less expressions first, and that the reader applies functions to all arguments. Numerical equality after reload is not decided.",
+        text="Decides that everything the writer can emit for a producible class is accepted by ode.lark with the right head per operator and all operands, that all sections / atoms / annotations are written unmodified, header-less expressions first, and that the reader applies functions to all arguments. Numerical equality after reload is not decided. Also: the grammar's number token accepts, as one token, every shape of literal the writer prints (witness per shape, matched against the regular expression lark compiles the terminal to), and each annotation is left out exactly when the atom does not have it.",
         note="sympy StrPrinter rows as vetted for 1.14.0.",
         ref="3/C11",
     ),
@@ -121,13 +121,13 @@ CLAIMED.update({
     ),
     "C17": dict(
         technique="static analysis: taint of free text (comment / unit strings) into evaluators, handler breadth, regex star-height, grammar-model checks of the comment terminal and tagged blocks, who-may-read table for annotation attributes; since the rebuild the function-level clauses are decided on abstract values (sa/av.py: symbolic summaries of what a function computes, compared with the vetted reference value; three-valued: ok / violation / undecided)",
-        text="Decides which code can see comment / annotation text and what it may do with it: evaluators reached (three KNOWN-FINDINGs: pint evaluates the text), every failure treated as 'not a unit', no super-linear regex or recursion on it; the grammar makes comments one line-bounded terminal and accepts comment / blank lines inside tagged blocks; no generator, template or scheme reads unit / description / comment. 'Never hangs' as such is not decided.",
+        text="Decides which code can see comment / annotation text and what it may do with it: evaluators reached (three KNOWN-FINDINGs: pint evaluates the text), every failure treated as 'not a unit', no super-linear regex or recursion on it; the grammar makes comments one line-bounded terminal and accepts comment / blank lines inside tagged blocks; no generator, template or scheme reads unit / description / comment. 'Never hangs' as such is not decided. Also: the text the parser sees is the model text itself - no rewrite of the raw text (which cannot know where comments are) sits between the file and the grammar.",
         note="pint behaviour as observed for 0.26.",
         ref="3/C17",
     ),
     "C19": dict(
         technique="static analysis: reserved-name extraction from template skeletons / argument tables vs presence of a guard; whole-word regex check; grammar terminals; printed-text-only interpolation lint over print methods; since the rebuild the function-level clauses are decided on abstract values (sa/av.py: symbolic summaries of what a function computes, compared with the vetted reference value; three-valued: ok / violation / undecided)",
-        text="Decides the set of names the generated code uses for itself and whether a guard covers it (today none: KNOWN-FINDING), that post-processing cannot corrupt identifiers, that only the exact token `pi` is the constant, that the Myokit importer renames consistently, and that print methods only interpolate printed text (sympy's reserved-word renaming cannot be bypassed). Behaviour per identifier is not decided.",
+        text="Decides the set of names the generated code uses for itself and whether a guard covers it (today none: KNOWN-FINDING), that post-processing cannot corrupt identifiers, that only the exact token `pi` is the constant, that the Myokit importer renames consistently, and that print methods only interpolate printed text (sympy's reserved-word renaming cannot be bypassed). Behaviour per identifier is not decided. Also: `t` and `time` are the time symbol of every model and `t` is never a missing variable, so the generated functions' own time argument is never re-bound from the model.",
         note="",
         ref="3/C19",
     ),
